@@ -71,6 +71,7 @@ def run(ctx):
                         "atomicity: every model step is one pool-mutex critical section; process creation and the return of the start "
                         "command are one step; goroutine scheduling, timers, SSH and the real crunch-run are not modelled",
                         "e2e stage is exploration: its judge is proved to reflect its Prop-level statement, but there is no model of the run; "
-                        "it tolerates 1500 ms between a dispatcher decision and the arrival of its SSH command",
+                        "1500 ms tolerance only for external cancels and instances seen held/draining/shut down, none for the dispatcher's own "
+                        "Unlock/Cancel; residual finding F21b has a narrow trigger predicate and its own result bit",
                         "time is a logical clock in the worker model; timeouts are compared only as expired (1 ns) / not expired (1 h)",
                     ])
